@@ -209,7 +209,9 @@ def run(ctx):
         for i, s_ in writes_field(pg, f):
             if s_["rv"]["k"] == "use":
                 wrote[f] = expr(pg, s_["rv"]["op"])
-    res.check(wrote.get("settings") == "bitor(sc.settings,self.g_settings)" and wrote.get("g_settings") == "bitor(sc.g_settings,self.g_settings)", "R5.8", "global-settings-handed-down", pg.where(),
+    import accessors
+    hd_ = accessors.g_settings_handed_down(fx)
+    res.check(hd_["settings"][0] and hd_["g_settings"][0], "R5.8", "global-settings-handed-down", pg.where(),
               "a subcommand receives the parent's global settings both as settings and as its own global settings", "_propagate_subcommand writes %s: global settings stop at the first subcommand level" % wrote)
     # ---- R5.9 `--` is a value only for a pending argument that accepts hyphen values (nothing else exempts it from being the escape)
     escq = sorted(set(c.callee_q.rsplit("::", 1)[1] for c in pp.calls() if not sp_macro(c.sp) and c.callee_q and c.callee_q.startswith("clap_builder::") and has_bool(pp, c.bb, "T", r"^is_escape\(")))
